@@ -547,6 +547,18 @@ PRE3 = PRE3[:PRE3.index("Definition check (c : case)")] + """Definition check (c
 """
 
 
+# text-tag configurations (use_replace = false): at every text update of the model's run, the (boolean, sound) premises of
+# XmlFmtProofsT1.text_update_flat and both flattened readings of the string written
+PRE4 = PRE2.replace("XV.XmlFmtProofs4 XV.XmlFmtProofs5.", "XV.XmlFmtProofs4 XV.XmlFmtProofs5 XV.XmlFmtProofsT2.")
+PRE4 = PRE4[:PRE4.index("Definition check (c : case)")] + """Definition check (c : case) : bool :=
+  let '(cf, late, alnum, space, L, R, rootns, pL, pR, gs, e) := c in
+  let o := Orc {| DMP.isalnum := fun c => existsb (N.eqb c) alnum; DMP.isspace := fun c => existsb (N.eqb c) space |}
+               (fun _ => late) in
+  let '(s, L', R') := prepare cf L R in
+  flat_runb cf o rootns (FS L' s [(Some DIFF_PREFIX, DIFF_NS)]) gs.
+"""
+
+
 def attrs_simple(c):
     """the scope of C10_reject_attrs_partial: no namespaced attribute names, no ; : { } in names, no ; { } in values"""
     for s in (c["left"], c["right"]):
@@ -652,6 +664,95 @@ def gen_texttags(rng, n):
             cfg["replace"] = False
         out.append({"kind": "texttags", "left": xml(PH.build_root(t1)), "right": xml(PH.build_root(t2)), "cfg": cfg,
                     "opts": rng.choice(gen.OPTION_SETS[:5]), "late": rng.random() < 0.1})
+    return out
+
+
+def gen_wsonly(rng, n):
+    """text tags with NON-formatting embedded elements whose content / attribute values differ between left and right
+    only in white space (the placeholder table must key on the exact serialisation); white space significant"""
+    W = ["a b", "a  b", "a\tb", "a \n b", " a b", "a b ", "x = 1", "x  =  1", "Part II", "Part  II"]
+    out = []
+
+    def case(l, r, tt, fmt, norm):
+        out.append({"kind": "wsonly", "left": l, "right": r, "cfg": {"normalize": norm, "replace": False, "tt": tt, "fmt": fmt},
+                    "opts": {}, "late": False})
+    fixed = [
+        ("<doc><para>see <code>x  =  1</code> now</para></doc>", "<doc><para>see <code>x = 1</code> now</para></doc>"),
+        ('<doc><para>in <ref title="Part  II"/> ok</para></doc>', '<doc><para>in <ref title="Part II"/> ok</para></doc>'),
+        ("<doc><para>old</para></doc>", "<doc><para><code>a b</code> versus <code>a  b</code></para></doc>"),
+        ("<doc><para><code>a  b</code> versus <code>a b</code></para></doc>", "<doc><para>new</para></doc>"),
+        ("<doc><para>t <code><k>a  b</k> c</code> u</para></doc>", "<doc><para>t <code><k>a b</k> c</code> u</para></doc>"),
+        ("<doc><para>t <code>a\n  b</code> u</para><para>v</para></doc>", "<doc><para>t <code>a\n    b</code> u</para><para>v w</para></doc>"),
+    ]
+    for l, r in fixed:
+        for norm in (WS_NONE, WS_TAGS):
+            case(l, r, ["para"], [], norm)
+        case(l, r, ["para"], ["k"], WS_NONE)
+    for _ in range(n):
+        x, y = rng.sample(W, 2)
+        kind = rng.choice(["text", "attr", "two", "nested"])
+        if kind == "text":
+            l, r = "<code>%s</code>" % x, "<code>%s</code>" % y
+        elif kind == "attr":
+            l, r = '<ref title="%s"/>' % x, '<ref title="%s"/>' % y
+        elif kind == "two":
+            l, r = "<code>%s</code>", "<code>%s</code> and <code>%s</code>" % (x, y)
+            l = l % x
+        else:
+            l, r = "<code><k>%s</k>!</code>" % x, "<code><k>%s</k>!</code>" % y
+        pre, post = rng.choice(["", "see ", "a b "]), rng.choice(["", " now", " c  d"])
+        doc = "<doc><para>%s%%s%s</para><para>other</para></doc>" % (pre, post)
+        if rng.random() < 0.3:
+            doc = "<doc><sec><para>%s%%s%s</para></sec></doc>" % (pre, post)
+        case(doc % l, doc % r, ["para"], rng.choice([[], ["k"], ["b"]]), rng.choice([WS_NONE, WS_TAGS]))
+    return out
+
+
+def gen_sibshift(rng, n):
+    """several same-tag siblings with children of their own; earlier siblings move into later ones between inserts into
+    several of them: the same target path string (/doc/sec[2]) denotes different parents at different points of the script"""
+    out = []
+
+    def case(l, r):
+        out.append({"kind": "sibshift", "left": l, "right": r, "cfg": {"normalize": WS_NONE, "replace": False, "tt": [], "fmt": []},
+                    "opts": {}, "late": False})
+    APP = "<sec><title>Appendix</title><p>Raw tables and listings.</p></sec>"
+    INTRO = "<sec><title>Introduction</title><p>Why we did this.</p>%s</sec>"
+    METH = "<sec><title>Methods</title><p>How we did this.</p>%s</sec>"
+    LEFT = "<doc>" + APP + INTRO % "" + METH % "" + "</doc>"
+    fixed = [
+        (LEFT, "<doc>" + APP + INTRO % "<note>Reviewed in May.</note>" + METH % "<pagebreak/>" + "</doc>"),
+        (LEFT, "<doc>" + INTRO % "" + METH % (APP + "<pagebreak/>") + "</doc>"),
+        (LEFT, "<doc>" + INTRO % "<note>Reviewed in May.</note>" + METH % (APP + "<pagebreak/>") + "</doc>"),
+        (LEFT, "<doc>" + INTRO % "<pagebreak/>" + METH % (APP + "<hr/>") + "</doc>"),
+        ("<book><part><ch><h>Old notes</h><p>Misc remarks kept for reference.</p></ch><ch><h>Setup</h><p>Install the tools.</p></ch>"
+         "<ch><h>Usage</h><p>Run the tools.</p></ch></part></book>",
+         "<book><part><ch><h>Setup</h><p>Install the tools.</p><fig/></ch><ch><h>Usage</h><p>Run the tools.</p><ch><h>Old notes</h>"
+         "<p>Misc remarks kept for reference.</p></ch><fig/></ch></part></book>"),
+    ]
+    for l, r in fixed:
+        case(l, r)
+    names = ["Alpha", "Beta", "Gamma", "Delta", "Epsilon"]
+    words = ["tables", "listings", "reasons", "methods", "results", "remarks"]
+    new = ["<note>Reviewed.</note>", "<pagebreak/>", "<hr/>", "<fig/>", "<note>n</note>"]
+    for _ in range(n):
+        k = rng.randint(3, 5)
+        secs = ["<sec><title>%s</title><p>About %s and %s.</p>%%s</sec>" % (names[i], words[i], words[(i + 2) % 6]) for i in range(k)]
+        left = "<doc>" + "".join(x % "" for x in secs) + "</doc>"
+        # an earlier section moves into a later one; new children go into several sections
+        m = rng.randrange(0, k - 1)
+        d = rng.randrange(m + 1, k)
+        adds = {i: rng.choice(new) for i in rng.sample(range(k), rng.randint(2, k)) if i != m}
+        parts = []
+        for i in range(k):
+            if i == m:
+                continue
+            inner = adds.get(i, "")
+            if i == d:
+                moved = secs[m] % ""
+                inner = (moved + inner) if rng.random() < 0.7 else (inner + moved)
+            parts.append(secs[i] % inner)
+        case(left, "<doc>" + "".join(parts) + "</doc>")
     return out
 
 
@@ -823,6 +924,8 @@ def gen_inputs(run, rng):
     cases += gen_lines(rng, 5 if quick else 60)
     cases += gen_struct(rng, 500 if quick else 5000)
     cases += gen_texttags(rng, 500 if quick else 5000)
+    cases += gen_wsonly(rng, 40 if quick else 300)
+    cases += gen_sibshift(rng, 40 if quick else 300)
     # scripts that do not fit the tree (error paths of _xpath and of the attribute handlers)
     mut = gen_struct(rng, 120 if quick else 1200)
     for i, c in enumerate(mut):
@@ -916,8 +1019,25 @@ def main(run, focus):
                     except OSError:
                         pass
         bad3 = [idx3[i] for i in b3]
-    run.log("premises/statements on the model: %d cases, %d failures; attribute premise: %d cases, %d failures"
-            % (len(idx2), len(bad2), len(idx3) if focus == "C10" else 0, len(bad3)))
+    idx4 = [i for i in idx if cases[i]["cfg"]["tt"] and not cases[i]["cfg"]["replace"] and cases[i]["kind"] not in ("mutated", "known")
+            and any(type(a).__name__ == "UpdateTextIn" for a in cases[i].get("script", []))]
+    bad4, log4 = [], ""
+    if pinfo.get("build_ok") and focus in ("C09", "C10"):
+        cname4 = "%sf%s%d" % (focus, run.tier[0], os.getpid())
+        try:
+            b4, log4 = lib.run_cases(cname4, PRE4, [coq_case(cases[i]) for i in idx4], chunk=max(40, len(idx4) // 40 + 1))
+        finally:
+            for f in os.listdir(lib.CASES):
+                if f.startswith(cname4 + "_") or f.startswith("." + cname4 + "_"):
+                    try:
+                        os.unlink(os.path.join(lib.CASES, f))
+                    except OSError:
+                        pass
+        bad4 = [idx4[i] for i in b4]
+    run.log("premises/statements on the model: %d cases, %d failures; attribute premise: %d cases, %d failures; "
+            "text-tag updates (premises + flattened readings): %d cases, %d failures"
+            % (len(idx2), len(bad2), len(idx3) if focus == "C10" else 0, len(bad3),
+               len(idx4) if focus in ("C09", "C10") else 0, len(bad4)))
     run.log("correspondence: %d cases (%d inputs outside the model or without a script), %d disagreements; "
             "oracle %s: %d inputs judged, %d violations (%d under a recorded finding)"
             % (len(idx), len(cases) - len(idx), len(bad), focus, judged, len(viols), nknown))
@@ -932,6 +1052,12 @@ def main(run, focus):
         corr.append({"name": "TESTED premise run_ok_attr of C10_reject_attrs_partial (a name is touched by one attribute action per "
                              "node, no overwriting insert/rename) on documents without namespaced attributes",
                      "cases": len(idx3), "bad": bad3, "log": log3, "describe": lambda i: describe(cases[i])})
+
+    if focus in ("C09", "C10"):
+        corr.append({"name": "TESTED premises of %s_texttag_update_flat_partial (minv, binv, capart, wf_cls, txt_ok: the maker and the "
+                             "strings prepare() builds; room) and its conclusion (both flattened readings), at every UpdateTextIn "
+                             "of the model's run on text-tag configurations without use_replace" % focus,
+                     "cases": len(idx4), "bad": bad4, "log": log4, "describe": lambda i: describe(cases[i])})
 
     def deeper():
         r2 = random.Random(run.seed + 7)
@@ -965,7 +1091,10 @@ def main(run, focus):
                 "namespaces declared on the root) with random normalize/use_replace and random Differ options; documents that bind "
                 "the formatter's own prefix `diff` to a namespace of their own; long multi-line texts and tails (> 100 "
                 "characters: diff_lineMode) with several groups of changed lines; seeded mixed-content "
-                "documents (tags %s) with random text_tags/formatting_tags subsets; the differ's scripts mutated (wrong paths, "
+                "documents (tags %s) with random text_tags/formatting_tags subsets; text-tag documents with non-formatting embedded "
+                "elements that differ between left and right ONLY in white space (content / attribute values), white space significant; "
+                "documents with several same-tag sibling sections where an earlier section moves into a later one between inserts into "
+                "several of them (the same target path string denotes different parents along the script); the differ's scripts mutated (wrong paths, "
                 "positions, attribute names) for the error paths; a labelled stream of inputs under the recorded findings.  DMP clock: "
                 "never late, or late at every test.  Compared exactly: both prepared trees (attribute order, None vs ''), the output "
                 "tree before serialisation or the exception class.  non-trivial = distinct input with a non-empty script"
